@@ -216,9 +216,7 @@ def deleteTypeOf (m : MutateCall) (inner : Option (List (Bytes × Bytes))) : Opt
 /-- The qualifier map `valuesToProto` ranges over for one family: `emptyQualifier` for a nil
 inner map of a delete. -/
 def effectiveInner (m : MutateCall) (inner : Option (List (Bytes × Bytes))) : List (Bytes × Bytes) :=
-  match inner with
-  | none => if m.mutType = .delete then [([], [])] else []
-  | some qs => qs
+  if m.mutType = .delete ∧ (inner.getD []).length = 0 then [([], [])] else inner.getD []
 
 /-- `valuesToProto`: `vals` is the value map in the order the outer and inner `range`s visit it. -/
 def valuesToProto (m : MutateCall) (vals : Values) (ts : Option Nat) : List PBColumnValue :=
@@ -540,16 +538,17 @@ def decodeMutation (region : Bytes) (p : PBMutation) (cond : Option PBCondition)
 def decodeMutate (r : PBMutateRequest) : MutateOp := decodeMutation r.region r.mutation r.condition
 
 /-- The cells one family of the caller's value map stands for (`NewDel` documentation: nil
-qualifier map = the whole family; otherwise the listed qualifiers). -/
+qualifier map = the whole family; otherwise the listed qualifiers; a map without any qualifier names
+the family and nothing else, the whole family as well). -/
 def intentCells (m : MutateCall) (inner : Option (List (Bytes × Bytes))) : List CellSpec :=
   let ts := if m.timestamp = maxTimestamp then none else some m.timestamp
   if m.mutType = .delete then
-    match inner with
-    | none => [{ qualifier := [], value := [], ts := ts
-                 kind := if m.deleteOneVersion then .deleteFamilyVersion else .deleteFamily }]
-    | some qs =>
-      qs.map fun qv => { qualifier := qv.1, value := qv.2, ts := ts
-                         kind := if m.deleteOneVersion then .deleteOne else .deleteMulti }
+    if (inner.getD []).length = 0 then
+      [{ qualifier := [], value := [], ts := ts
+         kind := if m.deleteOneVersion then .deleteFamilyVersion else .deleteFamily }]
+    else
+      (inner.getD []).map fun qv => { qualifier := qv.1, value := qv.2, ts := ts
+                                      kind := if m.deleteOneVersion then .deleteOne else .deleteMulti }
   else
     (inner.getD []).map fun qv => { qualifier := qv.1, value := qv.2, ts := ts, kind := .put }
 
